@@ -62,6 +62,17 @@ def plant(D):
             yield mut(lambda D2, m2, i2, c2, s=s: c2.__setitem__("t", Cat(c2["t"], Sig(s["n"])) if c2["t"]["k"] in ("sig", "slice", "cat", "pref", "bref") else Sig(s["n"])), "width_mismatch")
             yield mut(lambda D2, m2, i2, c2, s=s: c2.__setitem__("t", {"k": "fsig", "n": "orph", "w": s["w"], "owner": "orphan"}), "foreign_or_orphan_signal")
             yield mut(lambda D2, m2, i2, c2, s=s: c2.__setitem__("t", {"k": "fsig", "n": s["n"], "w": s["w"], "owner": "Elsewhere"}), "foreign_or_orphan_signal")
+        # a signal stolen from a module of the same hierarchy: the target module's own port signal (which that module uses itself)
+        if inst["of"]["k"] == "mod" and inst["of"]["ref"] in D["mods"]:
+            child = D["mods"][inst["of"]["ref"]]
+            for cs in child["sigs"]:
+                if cs["n"] == conn["p"]:
+                    yield mut(lambda D2, m2, i2, c2, cs=cs: c2.__setitem__("t", {"k": "fsig", "n": cs["n"], "w": cs["w"], "owner": "design:" + i2["of"]["ref"]}),
+                              "foreign_or_orphan_signal")
+                    if cs["w"] > 1:
+                        yield mut(lambda D2, m2, i2, c2, cs=cs: c2.__setitem__("t", Cat(Slc({"k": "fsig", "n": cs["n"], "w": cs["w"], "owner": "design:" + i2["of"]["ref"]}, R(1, None)),
+                                                                                       Slc({"k": "fsig", "n": cs["n"], "w": cs["w"], "owner": "design:" + i2["of"]["ref"]}, I(0)))),
+                                  "foreign_inside_term")
         # faults inside the term: at every replaceable position
         t = conn["t"]
         for pos, (cont, key) in enumerate(sig_terms(t)):
